@@ -167,52 +167,45 @@ def layout(ctx, p, f):
 
 # ---- R3 -----------------------------------------------------------------------------------------------------------------------
 def decode(ctx, p):
+    """decision table of decode_move over (origin square, target square, piece on the origin): a king on e1/e8 moving to the
+    rook square or the castled square becomes the castling move of that wing; everything else is returned unchanged"""
+    from rules.norm import Norm, decision, Unknown, eval_function
     f = p.fn(PB + 'decode_move')
     ctx.analysed(f)
     sq = p.enum(E + 'Square')
     pe = p.enum(E + 'Piece')
-    arms = []
-    for n in kids(f.body):
-        if n['k'] == 'IfStmt':
-            r = [x for x in walk(kids(n)[1]) if x['k'] == 'ReturnStmt']
-            res = cn(f, kids(r[0])[0]) if len(r) == 1 else None
-            # condition: conjunction whose members may be disjunctions over the target square
-            atoms = set()
-            tos = set()
-            for m in flatten(kids(n)[0], '&&'):
-                alts = flatten(m, '||')
-                if len(alts) == 1:
-                    atoms.add(norm_atom(f, m))
-                else:
-                    for a in alts:
-                        na = norm_atom(f, a)
-                        if na[0] == 'in' and na[1] == 'to(move)' and len(na[2]) == 1:
-                            tos |= na[2]
-                        else:
-                            atoms.add(('alt', na))
-            arms.append((frozenset(atoms), frozenset(tos), res))
-        elif n['k'] == 'ReturnStmt':
-            arms.append((None, None, cn(f, kids(n)[0])))
-
-    def arm(fr, tos, king, res):
-        return (frozenset({('in', 'from(move)', frozenset({sq[fr]})), ('in', 'position.piece_at(from(move))', frozenset({pe[king]}))})
-                if False else frozenset({('in', 'from(move)', frozenset({sq[fr]})), norm_piece(king)}), frozenset(sq[t] for t in tos), res)
-
-    def norm_piece(king):
-        return ('eq', 'position.piece_at(from(move))', pe[king])
-    want = [arm('SQ_E1', ('SQ_H1', 'SQ_G1'), 'W_KING', 'create_castling(KING_CASTLING)'),
-            arm('SQ_E1', ('SQ_A1', 'SQ_C1'), 'W_KING', 'create_castling(QUEEN_CASTLING)'),
-            arm('SQ_E8', ('SQ_H8', 'SQ_G8'), 'B_KING', 'create_castling(KING_CASTLING)'),
-            arm('SQ_E8', ('SQ_A8', 'SQ_C8'), 'B_KING', 'create_castling(QUEEN_CASTLING)')]
-    got = [a for a in arms if a[0] is not None]
-    tail = [a for a in arms if a[0] is None]
-
-    def keyf(a):
-        return (sorted(map(str, a[0])), sorted(a[1]), a[2])
-    ctx.ob('C19.R3.decode-table', 'decode_move', sorted(map(keyf, got)) == sorted(map(keyf, want)) and len(tail) == 1 and tail[0][2] == 'move',
-           'a king on e1/e8 moving to the rook square or the castled square becomes the castling move of that wing; every other move is returned unchanged',
-           site=f.loc(), detail={'found': [str(keyf(a)) for a in got]})
     ce = p.enum(E + 'Castling')
+    origins = [sq['SQ_E1'], sq['SQ_E8'], sq['SQ_D1']]
+    targets = [sq[x] for x in ('SQ_H1', 'SQ_G1', 'SQ_A1', 'SQ_C1', 'SQ_H8', 'SQ_G8', 'SQ_A8', 'SQ_C8', 'SQ_F1', 'SQ_E2')]
+    pieces = [pe['W_KING'], pe['B_KING'], pe['W_QUEEN'], pe['NO_PIECE']]
+    king_side = {sq['SQ_E1']: (sq['SQ_H1'], sq['SQ_G1']), sq['SQ_E8']: (sq['SQ_H8'], sq['SQ_G8'])}
+    queen_side = {sq['SQ_E1']: (sq['SQ_A1'], sq['SQ_C1']), sq['SQ_E8']: (sq['SQ_A8'], sq['SQ_C8'])}
+    owner = {sq['SQ_E1']: pe['W_KING'], sq['SQ_E8']: pe['B_KING']}
+    bad = None
+    rows = 0
+    try:
+        for o in origins:
+            for t in targets:
+                for pc in pieces:
+                    val = {'from(move)': o, 'to(move)': t, 'position.piece_at(from(move))': pc, 'position.piece_at(%d)' % o: pc}
+                    nm = Norm(f)
+                    nm.val = val
+                    r = decision(f, val, nm)
+                    got = nm.s(kids(r)[0]) if r is not None else None
+                    want = 'move'
+                    if o in owner and pc == owner[o]:
+                        if t in king_side[o]:
+                            want = str(eval_function(p, 'engine::create_castling', [ce['KING_CASTLING']]))
+                        elif t in queen_side[o]:
+                            want = str(eval_function(p, 'engine::create_castling', [ce['QUEEN_CASTLING']]))
+                    rows += 1
+                    if got != want and bad is None:
+                        bad = ('from %d to %d with piece %d' % (o, t, pc), got, want)
+    except Unknown as u:
+        raise AnalysisBroken('C19: decode_move depends on `%s`, which is not origin, target or the piece on the origin' % u)
+    ctx.ob('C19.R3.decode-table', 'decode_move', bad is None and rows >= 100,
+           'a king on e1/e8 moving to the rook square or the castled square becomes the castling move of that wing; every other move is returned '
+           'unchanged (%d rows of origin x target x piece)%s' % (rows, '' if bad is None else ' — %s gives %s, expected %s' % bad), site=f.loc())
     ctx.ob('C19.R3.wing-codes', 'Castling', ce['KING_CASTLING'] == ce['W_OO'] | ce['B_OO'] and ce['QUEEN_CASTLING'] == ce['W_OOO'] | ce['B_OOO'],
            'KING_CASTLING / QUEEN_CASTLING denote the wings for both colours', site='engine/types.h')
 
@@ -302,58 +295,91 @@ def selection(ctx, p):
     zero = [x for x in r.all_nodes() if x['k'] == 'ReturnStmt' and cn(r, kids(x)[0]) == 'NO_MOVE']
     okz = len(zero) == 1 and ('le', 'sum_of_weights', 0) in facts_atoms(r, guard_facts(r, zero[0]))
     ctx.ob('C19.R4.all-zero', 'get_random_move', okz, 'when no record has positive weight no book move is offered (NO_MOVE)', site=r.loc())
-    # the cumulative walk
-    wl = [x for x in r.all_nodes() if x['k'] == 'WhileStmt']
+    # the cumulative walk, in either of two spellings:
+    #   A  while (i < n && acc + W[i] <=|< sample) acc += W[i++];             (skip a record while ...)
+    #   B  for (; i < n; ++i) { acc += W[i]; if (sample <|<= acc) break; }     (stop at the first record with ...)
+    # with a 0-based sample the selected record must be the first whose cumulative weight is > sample:
+    #   A needs `<=` (1-based: `<`), B needs `sample < acc` (1-based: `sample <= acc`).
+    import re as _re
+    from rules.norm import Norm
+    nmr = Norm(r, inline=False)
+    rets = [x for x in r.all_nodes() if x['k'] == 'ReturnStmt' and x not in zero]
+    ans = nmr.s(kids(rets[0])[0]).replace('this.', '') if len(rets) == 1 else ''
+    m = _re.fullmatch(r'decode_move\(moves\[(\w+)\]\.first,position\)', ans)
+    okr = bool(m)
+    ctx.ob('C19.R4.answer', 'get_random_move', okr, 'the answer is decode_move of the selected record\'s move', site=r.loc())
     okw = False
     why = 'cumulative walk not recognised'
-    if len(wl) == 1 and base is not None:
-        cond = conj(r, kids(wl[0])[0])
-        body = kids(wl[0])[1]
-        wd, idd = decl(r, 'w'), decl(r, 'i')
-        inits = wd is not None and idd is not None and const_of(strip_casts(kids(wd)[0])) == 0 and const_of(strip_casts(kids(idd)[0])) == 0
-        inrange = ('<', 'i', 'moves.size()') in cond
-        step = cn(r, body) in ('(w+=moves[++(i)].second)',)      # post-increment prints as ++(i) after the subscript is taken
-        post = any(x['k'] == 'UnaryOperator' and x.get('op') == '++' and x.get('post', True) for x in walk(body))
-        # continue while cum(i) <= sample (0-based sample) / < sample (1-based sample)
-        cont0 = ('<=', '(w+moves[i].second)', 'sample') in cond
-        cont1 = ('<', '(w+moves[i].second)', 'sample') in cond
-        others = [a for a in cond if a not in (('<', 'i', 'moves.size()'), ('<=', '(w+moves[i].second)', 'sample'), ('<', '(w+moves[i].second)', 'sample'))]
-        if not (inits and inrange and not others and (cont0 or cont1)):
-            why = 'cumulative walk not recognised (%s)' % sorted(map(str, cond))
-            raise_unrec = not (cont0 or cont1) or others
-            if raise_unrec and inits and inrange:
-                raise AnalysisBroken('C19: selection loop of get_random_move has an unrecognised continuation condition %s' % sorted(map(str, cond)))
-        else:
-            okw = (base == 0 and cont0) or (base == 1 and cont1)
-            why = ('a record is skipped exactly while its cumulative weight is <= the 0-based sample' if base == 0 else
-                   'a record is skipped exactly while its cumulative weight is < the 1-based sample') if okw else \
-                  ('with a sample in [%d, sum%s) the walk must skip a record while cumulative weight %s sample, but it tests %s: '
-                   'a zero-weight first record is selected for the smallest sample and the last record loses one outcome'
-                   % (base, '' if base == 0 else '+1', '<=' if base == 0 else '<', '<' if base == 0 else '<='))
-        if okw and not _walk_step_ok(r, body):
-            okw = False
-            why = 'the step must add the weight of record i and then advance i (w += moves[i++].second)'
+    loops = [x for x in r.all_nodes() if x['k'] in ('WhileStmt', 'ForStmt')]
+    if m and len(loops) == 1 and base is not None:
+        iv = m.group(1)
+        lp = loops[0]
+        condn = kids(lp)[0] if lp['k'] == 'WhileStmt' else lp['ch'][2]
+        body = kids(lp)[1] if lp['k'] == 'WhileStmt' else lp['ch'][4]
+        cond = nmr.conj(condn) if condn is not None else frozenset()
+        accs = [x for x in walk(body) if x['k'] == 'CompoundAssignOperator' and x.get('op') == '+=' and
+                _re.fullmatch(r'moves\[(\+\+\()?%s\)?\]\.second' % iv, nmr.s(kids(x)[1]).replace('(%s)' % iv, iv) if False else nmr.s(kids(x)[1]))]
+        accs = [x for x in walk(body) if x['k'] == 'CompoundAssignOperator' and x.get('op') == '+=' and
+                nmr.s(kids(x)[1]) in ('moves[%s].second' % iv, 'moves[++(%s)].second' % iv)]
+        idd = decl(r, iv)
+        iv0 = idd is not None and kids(idd) and const_of(strip_casts(kids(idd)[0])) == 0
+        inrange = ('<', iv, 'moves.size()') in cond
+        if len(accs) == 1 and iv0 and inrange:
+            acc = nmr.s(kids(accs[0])[0])
+            ad = decl(r, acc)
+            acc0 = ad is not None and kids(ad) and const_of(strip_casts(kids(ad)[0])) == 0
+            rest = [a_ for a_ in cond if a_ != ('<', iv, 'moves.size()')]
+            if lp['k'] == 'WhileStmt' and len(rest) == 1 and acc0:
+                a_ = rest[0]
+                lhs = '(%s+moves[%s].second)' % (acc, iv)
+                lhs2 = '(moves[%s].second+%s)' % (iv, acc)
+                if a_[0] in ('<', '<=') and a_[1] in (lhs, lhs2) and a_[2] == 'sample':
+                    op = a_[0]
+                    okw = (base == 0 and op == '<=') or (base == 1 and op == '<')
+                    why = 'a record is skipped exactly while its cumulative weight is %s the %d-based sample' % (op, base) if okw else \
+                        ('with a sample in [%d, sum%s) the walk must skip a record while cumulative weight %s sample, but it tests %s: '
+                         'a zero-weight first record is selected for the smallest sample and the last record loses one outcome'
+                         % (base, '' if base == 0 else '+1', '<=' if base == 0 else '<', op))
+                    if okw and not _walk_step_ok(r, body, acc, iv):
+                        okw = False
+                        why = 'the step must add the weight of record %s and then advance %s' % (iv, iv)
+                else:
+                    raise AnalysisBroken('C19: selection loop of get_random_move has an unrecognised continuation condition %s' % sorted(map(str, cond)))
+            elif lp['k'] == 'ForStmt' and not rest and acc0:
+                brk = [x for x in walk(body) if x['k'] == 'BreakStmt']
+                inc = lp['ch'][3]
+                inc_ok = inc is not None and strip_casts(inc).get('op') == '++' and nmr.s(kids(strip_casts(inc))[-1]) == iv
+                if len(brk) == 1 and inc_ok:
+                    g = nmr.facts([(c, t) for c, t in guard_facts(r, brk[0]) if r.inside(c, body)])
+                    strict = frozenset({('<', 'sample', acc)})
+                    weak = frozenset({('<=', 'sample', acc)})
+                    if g in (strict, weak) and r.cfg.node_dominates(accs[0], brk[0]):
+                        okw = (base == 0 and g == strict) or (base == 1 and g == weak)
+                        why = 'the walk stops at the first record whose cumulative weight is %s the %d-based sample' % ('>' if g == strict else '>=', base) \
+                            if okw else 'with a %d-based sample the walk must stop when sample %s cumulative weight' % (base, '<' if base == 0 else '<=')
+                    else:
+                        raise AnalysisBroken('C19: selection loop of get_random_move stops on an unrecognised condition %s' % sorted(map(str, g or [])))
+            else:
+                raise AnalysisBroken('C19: selection loop of get_random_move is written in a form the rule does not know')
+    elif m and base is not None:
+        raise AnalysisBroken('C19: get_random_move selects its record in a form the rule does not know')
     ctx.ob('C19.R4.cumulative-walk', 'get_random_move', okw,
            'the random policy selects the first record whose cumulative weight exceeds the sample, so each record is selected for exactly '
-           '`weight` of the `sum` samples and a zero-weight record for none — ' + why, site=r.loc(wl[0]) if wl else r.loc())
-    rets = [x for x in r.all_nodes() if x['k'] == 'ReturnStmt' and x not in zero]
-    okr = len(rets) == 1 and cn(r, kids(rets[0])[0]).replace('this.', '') == 'decode_move(moves[i].first,position)' and \
-        (not wl or r.cfg.node_dominates(kids(wl[0])[0], rets[0]))
-    ctx.ob('C19.R4.answer', 'get_random_move', okr, 'the answer is decode_move of the selected record\'s move', site=r.loc())
+           '`weight` of the `sum` samples and a zero-weight record for none — ' + why, site=r.loc(loops[0]) if loops else r.loc())
 
 
-def _walk_step_ok(r, body):
-    """w += moves[i++].second : adds the weight of record i, then advances i"""
+def _walk_step_ok(r, body, acc='w', iv='i'):
+    """acc += moves[i++].second : adds the weight of record i, then advances i (also as two statements)"""
     b = _unbool(body)
     if b['k'] == 'CompoundStmt' and len(kids(b)) == 1:
         b = _unbool(kids(b)[0])
     if b['k'] == 'CompoundStmt' and len(kids(b)) == 2:
         s = [cn(r, x) for x in kids(b)]
-        return s in (['(w+=moves[i].second)', '++(i)'],)
-    if b['k'] != 'CompoundAssignOperator' or b.get('op') != '+=' or cn(r, kids(b)[0]) != 'w':
+        return s in (['(%s+=moves[%s].second)' % (acc, iv), '++(%s)' % iv],)
+    if b['k'] != 'CompoundAssignOperator' or b.get('op') != '+=' or cn(r, kids(b)[0]) != acc:
         return False
     incs = [x for x in walk(kids(b)[1]) if x['k'] == 'UnaryOperator' and x.get('op') == '++']
-    if len(incs) != 1 or cn(r, kids(incs[0])[0]) != 'i':
+    if len(incs) != 1 or cn(r, kids(incs[0])[0]) != iv:
         return False
     # must be the post-increment: the subscript uses the old i
     return bool(incs[0].get('post'))
